@@ -121,10 +121,12 @@ namespace cs
                 Flavour == 1, typename K::template C<T, AlAny>,
                 typename std::conditional<
                     Flavour == 2, typename K::template C<T, AlStateless>,
-                    typename std::conditional<Flavour == 3, typename K::template C<T, AlP3>,
-                                              typename K::template C<T, AlP4>>::type>::type>::type>::type;
+                    typename std::conditional<
+                        Flavour == 3, typename K::template C<T, AlP3>,
+                        typename std::conditional<Flavour == 4, typename K::template C<T, AlP4>,
+                                                  typename K::template C<T, AlPmr>>::type>::type>::type>::type>::type;
         // what the specification (propagation_traits, default: everything propagates) says about this flavour
-        constexpr bool P_MOVE = Flavour != 3, P_COPY = Flavour < 3;
+        constexpr bool P_MOVE = Flavour != 3, P_COPY = Flavour < 3 || Flavour == 5;
         using RT    = typename K::template C<T, AlRef>;
         using Alloc = typename CT::allocator_type;
         (void)sizeof(Elem);
@@ -139,9 +141,19 @@ namespace cs
             lp3[i] = LeafP3(&env.leaf[i]);
             lp4[i] = LeafP4(&env.leaf[i]);
         }
+        // flavour 5: requests above the leaf's max_node_size() travel as arrays of that size
+        static std::unique_ptr<fm::memory_resource_adapter<LeafA>> pmr[2];
+        if (Flavour == 5)
+            for (int i = 0; i < 2; ++i)
+            {
+                env.leaf[i].max_node = std::size_t(plan.num("pmr_max_node", 64));
+                pmr[i].reset(new fm::memory_resource_adapter<LeafA>(LeafA(&env.leaf[i])));
+            }
         auto make_alloc = [&](int leaf) -> Alloc
         {
-            if constexpr (Flavour == 2)
+            if constexpr (Flavour == 5)
+                return Alloc(fm::memory_resource_allocator(pmr[leaf].get()));
+            else if constexpr (Flavour == 2)
                 return Alloc(StatelessLeaf<1>{});
             else if constexpr (Flavour == 3)
                 return Alloc(lp3[leaf]);
@@ -159,7 +171,8 @@ namespace cs
             s[i].leaf = stateful ? (i < 2 ? 0 : 1) : 0;
             s[i].c.reset(new CT(make_alloc(s[i].leaf)));
         }
-        const std::size_t node_limit = K::template node_size<T>();
+        // (a memory_resource sees bytes only: everything up to max_node_size() arrives as a node there)
+        const std::size_t node_limit = Flavour == 5 ? 0 : K::template node_size<T>();
         std::size_t       log_pos    = 0;
 
         auto check = [&](const char* what, int step)
